@@ -225,7 +225,7 @@ fn batch_comp(r: &BatchResponse<'_, Raw>) -> Comp {
 			Err(eo) => Err((eo.code(), eo.message().to_string(), eo.data().map(|d| d.get().to_string()))),
 		})
 		.collect();
-	Comp::Batch { succ: r.num_successful_calls(), fail: r.num_failed_calls(), entries }
+	Comp::Batch { succ: r.num_successful_calls(), fail: r.num_failed_calls(), view: crate::client_mock::batch_view(r), entries }
 }
 
 fn sub_id_repr(s: &jsonrpsee_types::SubscriptionId<'_>) -> String {
